@@ -19,7 +19,7 @@ sed "s#=> /repo#=> $W/repo#" "$VERIF/sim/go.mod" > "$W/go.mod"; cp /repo/go.sum 
 if [ "$ID" = C25 ]; then
   ( cd "$VERIF/sim" && go build -race -modfile="$W/go.mod" -tags verif -o "$W/bin/simcheck-race" ./cmd/simcheck ) 2>> "$W/build.log" || { echo "HARNESS-FAULT race build failed"; tail -20 "$W/build.log"; exit 2; }
 fi
-VERIF_SEED=$SEED timeout -k 10 14400 "$W/bin/simcheck" -prop "$ID" -tier "$TIER" -verif "$W/out" ${EVAL_WORKERS:+-workers $EVAL_WORKERS} 2>&1 | grep -E "^(VIOLATION|violation|HARNESS|done|KNOWN|also)"
+VERIF_SEED=$SEED timeout -k 10 14400 "$W/bin/simcheck" -prop "$ID" -tier "$TIER" -verif "$W/out" ${EVAL_WORKERS:+-workers $EVAL_WORKERS} 2>&1 | grep -E "^(VIOLATION|violation|HARNESS|done|KNOWN|also|note)"
 rc=${PIPESTATUS[0]}
 [ -n "${EVAL_KEEP:-}" ] && [ -d "$W/out/replays" ] && mkdir -p "$EVAL_KEEP" && cp "$W"/out/replays/* "$EVAL_KEEP"/ 2>/dev/null
 exit $rc
